@@ -2,13 +2,13 @@
 EXTENDS H_Barrier, Sequences, TLC, Json, IOUtils
 TraceLog == ndJsonDeserialize(IOEnv.TRACE)
 VARIABLE l
-tvars == <<n, entered, inside, l>>
+tvars == <<n, entered, inside, released, l>>
 Ev == TraceLog[l]
 More == l <= Len(TraceLog)
 Consume == l' = l + 1
-TInit == n = 1 /\ entered = [k \in Rounds |-> {}] /\ inside = [t \in Threads |-> -1] /\ l = 1
+TInit == n = 1 /\ entered = [k \in Rounds |-> {}] /\ inside = [t \in Threads |-> -1] /\ released = {} /\ l = 1
 TReset == More /\ Ev.e = "Reset" /\ Consume /\ n' = 1 /\ entered' = [k \in Rounds |-> {}]
-          /\ inside' = [t \in Threads |-> -1]
+          /\ inside' = [t \in Threads |-> -1] /\ released' = {}
 TBarrier == More /\ Ev.e = "Barrier" /\ Consume /\ Reinit(Ev.n)
 TCall == More /\ Ev.e = "BarCall" /\ Consume /\ BarCall(Ev.t, Ev.k)
 TRet == More /\ Ev.e = "BarRet" /\ Consume /\ BarRet(Ev.t, Ev.k)
